@@ -193,7 +193,18 @@ func c15(r *hx.Run) {
 			t.TransactionTime = uint64(100 + k)
 			t.TransactionNumber = uint64(7 - k) // non-monotone numbers
 			t.CanonicalReference = fmt.Sprintf("canon-%d", k)
-			t.EquivalentReferences = []string{fmt.Sprintf("eq1-%d", k), fmt.Sprintf("eq2-%d", k)}
+			// the equivalent references are passed through as they are: disjoint from the canonical one, containing it (first /
+			// last / only), or empty
+			switch k % 4 {
+			case 0:
+				t.EquivalentReferences = []string{fmt.Sprintf("eq1-%d", k), fmt.Sprintf("eq2-%d", k)}
+			case 1:
+				t.EquivalentReferences = []string{t.CanonicalReference, fmt.Sprintf("eq1-%d", k)}
+			case 2:
+				t.EquivalentReferences = []string{fmt.Sprintf("eq1-%d", k), t.CanonicalReference, t.CanonicalReference}
+			case 3:
+				t.EquivalentReferences = []string{t.CanonicalReference}
+			}
 			txns = append(txns, t)
 		}
 		done := r.Watch(caseID)
